@@ -221,3 +221,94 @@ fn u2_one(layouts: &LayoutSet, rng: &mut StdRng, b: &Value, only: &[&'static str
         _ => {}
     }
 }
+
+
+// ---- implementation -> spec: random recorded Unreal 2 queries for Trace_Unreal2.tla ---------------------------
+
+pub fn trace_unreal2(layouts: &LayoutSet, seed: u64, runs: usize, dump: Option<usize>, out: &mut Vec<Value>, rep: &mut Report) {
+    use gamedig::verif_hook as hook;
+    let mut rng = StdRng::seed_from_u64(seed);
+    let toggles = ["Skip", "Try", "Enforce"];
+    let cands: Vec<&Value> = layouts.all.iter().filter(|l| l["layout"]["entry"] == "unreal2" && l["shape"].get("datagrams").is_some()).collect();
+    for ix in 0 .. runs {
+        let r = [0u64, 0, 1, 1, 2, 3, 5][rng.gen_range(0 .. 7)];
+        let (gp, gr) = (toggles[rng.gen_range(0 .. 3)], toggles[rng.gen_range(0 .. 3)]);
+        let cfg = json!({"r": r, "gp": gp, "gr": gr});
+        let bb = proto::build_fitting(&mut rng, &cands);
+        // follow the specification's control flow to script a reaction per request
+        let mut plan: Vec<(&str, &str)> = Vec::new();
+        let mut on_send: Vec<Vec<Vec<u8>>> = Vec::new();
+        'q: for (si, sec) in ["info", "rules", "players"].iter().enumerate() {
+            let tog = match *sec { "info" => "Enforce", "rules" => gr, _ => gp };
+            if tog == "Skip" {
+                continue;
+            }
+            let mut attempt = 1;
+            loop {
+                let o = match rng.gen_range(0 .. 100) { 0 ..= 59 => "good", 60 ..= 84 => "silent", _ => "bad" };
+                plan.push((sec, o));
+                on_send.push(match o {
+                    "good" => bb.batches[si].clone(),
+                    "bad" => vec![vec![0x80, 0, 0, 0, 9, 1, 2]],
+                    _ => vec![],
+                });
+                match o {
+                    "good" => break,
+                    "bad" => { if tog == "Enforce" { break 'q } else { break } }
+                    _ => {
+                        if attempt <= r { attempt += 1 } else if tog == "Enforce" { break 'q } else { break }
+                    }
+                }
+            }
+        }
+        let script = ScriptJ::udp(on_send);
+        let g = unreal2::GatheringSettings { players: toggle(gp), mutators_and_rules: toggle(gr) };
+        let rec = run_call(&script, DEFAULT_MAX_OPS, || unreal2::query(&addr(7777), &g, timeouts(r as usize)));
+        rep.evaluations += 1;
+        rep.distinct.insert(hash_of(&(cfg.to_string(), plan.iter().map(|p| p.1).collect::<Vec<_>>())));
+        let start = out.len();
+        out.push(json!({"ev":"Call","ix":ix,"cfg":cfg}));
+        if dump == Some(ix) {
+            rep.extra.insert("dumped_run".into(), json!({"kind":"unreal2-trace","cfg":cfg,"script":script,"plan":plan.iter().map(|p| json!([p.0,p.1])).collect::<Vec<_>>()}));
+        }
+        let mut n = 0usize;
+        for e in &rec.events {
+            if let hook::Event::Send { data, .. } = e {
+                let sec = match data.get(4) { Some(0) => "info", Some(1) => "rules", Some(2) => "players", _ => "unknown" };
+                // the outcome the scripted server produces for this request (beyond the plan: silence)
+                let o = plan.get(n).map(|p| p.1).unwrap_or("silent");
+                out.push(json!({"ev":"Attempt","sec":sec,"o":o}));
+                n += 1;
+            }
+        }
+        match &rec.outcome {
+            Outcome::Ok(v) => {
+                // a section that was not gathered comes back empty
+                let rules = v["mutators_and_rules"]["rules"].as_object().map_or(false, |m| !m.is_empty())
+                    || v["mutators_and_rules"]["mutators"].as_array().map_or(false, |m| !m.is_empty());
+                let players = v["players"]["players"].as_array().map_or(false, |m| !m.is_empty()) || v["players"]["bots"].as_array().map_or(false, |m| !m.is_empty());
+                // (an answered section can be legitimately empty: presence is then what the plan says)
+                let answered = |s: &str| plan.iter().any(|p| p.0 == s && p.1 == "good");
+                let exp_rules_empty = bb.expected["mutators_and_rules"]["rules"].as_object().map_or(true, |m| m.is_empty())
+                    && bb.expected["mutators_and_rules"]["mutators"].as_array().map_or(true, |m| m.is_empty());
+                let exp_players_empty = bb.expected["players"]["players"].as_array().map_or(true, |m| m.is_empty())
+                    && bb.expected["players"]["bots"].as_array().map_or(true, |m| m.is_empty());
+                let rules_present = if exp_rules_empty { answered("rules") } else { rules };
+                let players_present = if exp_players_empty { answered("players") } else { players };
+                out.push(json!({"ev":"Return","state":"ok","class":"","rules":rules_present,"players":players_present}));
+            }
+            Outcome::Err(k) => {
+                let class = if k == "PacketReceive" || k == "PacketSend" { "timeout" } else { "malformed" };
+                out.push(json!({"ev":"Return","state":"err","class":class,"rules":false,"players":false}));
+            }
+            Outcome::Panic { msg } => {
+                rep.violation("C01", &format!("unreal2: panic {}", crate::valve::first_line(msg)), json!({"kind":"unreal2-trace","cfg":cfg,"script":script}));
+                out.truncate(start);
+            }
+            Outcome::Hang => {
+                rep.violation("C01", "unreal2: does not return", json!({"kind":"unreal2-trace","cfg":cfg,"script":script}));
+                out.truncate(start);
+            }
+        }
+    }
+}
